@@ -33,7 +33,7 @@ func (m *Method) Simplify() any {
 func (m *Method) Call(s *Scope, args List, depth int) Object {
 	for i, c := range m.Combinations {
 		if c.Wrap != nil {
-			loc := &WhopLoc{Method: m, Current: i}
+			loc := &WhopLoc{Method: m, Current: i, Args: args}
 			ws := s.NewScope()
 			ws.Let("~whopper-location~", loc)
 			return c.Wrap.Call(ws, args, depth+1)
